@@ -31,3 +31,4 @@ PROP = {
     "assumptions": STD_ASSUME + ["thinning >= 1 (the property's quantifier); Metropolis law tests use thinning 25..45 and proposal widths of the order of the target width so that thinned samples are close to independent",
                                  "false-alarm probability across VERIF_SEED values of the order of 1e-7 per run"],
 }
+PROP["level_text"] += ' Law tests now number 96 (thorough 2880); inverse-transform and rejection targets also run on the windows [0,1e-12], [1e9,1e9+1], [-3e8,-3e8+0.5] and [0,1e6] with 2e5 draws.'
